@@ -171,13 +171,24 @@ def task_ste_sequence(which: str) -> List[Dict[str, Any]]:
     return discharge("C15", f"{which}[sequence of formats]", h_ste_sequence(which), replay_ste_sequence, 20, base_info={"which": which, "sequence": True})
 
 
+def _spread(t: torch.Tensor, infinities: bool = False) -> torch.Tensor:
+    """replay data over the whole dynamic range, cyclically: ordinary / saturating / tiny / beyond every format's maximum / so far beyond
+    it that float32 absorbs the format's spacing (>= 2^24 x the top spacing: 1e9 for the 8-bit formats, 1e15 for E5M2 and wider) and,
+    for the element-wise estimator harness, +-infinity"""
+    if not t.is_floating_point() or t.numel() == 0:
+        return t
+    vals = [1.0, 300.0, 1e-3, 1e4, 1e9, 1e15] + ([float("inf"), float("-inf")] if infinities else [])
+    pat = torch.tensor(vals, dtype=t.dtype)[torch.arange(t.numel()) % len(vals)].reshape(t.shape)
+    return t.abs().clamp_min(0.25) * t.sign() * pat if infinities else t * pat
+
+
 def replay_ste(obname: str, model: Dict[str, Any], info: Any) -> Tuple[bool, str]:
     label = FORMATS[info["format"]][0]
     fmt = mkfmt((label[0], label[1], "nearest", 0))  # deterministic for the replay
-    x = torch.randn(3, 5, requires_grad=True)
+    x = _spread(torch.randn(4, 8), infinities=True).requires_grad_(True)
     x0 = x.detach().clone()
     y = getattr(fmt, info["which"])(x)
-    g = torch.randn(3, 5)
+    g = _spread(torch.randn(4, 8))
     (gx,) = torch.autograd.grad(y, x, g)
     if info["which"] == "quantise_fwd":
         ok = torch.equal(y.detach(), fmt.quantise(x0)) and torch.equal(gx, g)
@@ -319,8 +330,10 @@ def concrete_compare(spec: Any, fkey: str) -> Tuple[bool, str]:
         g = torch.Generator().manual_seed(1234)
         return orig_randint(*a, generator=g, **k)
 
+    wide = [False]
+
     def run(fn: Any) -> Tuple[torch.Tensor, List[Optional[torch.Tensor]]]:
-        leaves = {str(n.target): (ex.detach().clone().requires_grad_(True) if ex.is_floating_point() else ex.detach().clone())
+        leaves = {str(n.target): ((_spread(ex.detach().clone()) if wide[0] else ex.detach().clone()).requires_grad_(True) if ex.is_floating_point() else ex.detach().clone())
                   for n, ex in zip(phs, cap.example_inputs)}
         torch.randint = pinned  # type: ignore[assignment]
         try:
@@ -332,14 +345,22 @@ def concrete_compare(spec: Any, fkey: str) -> Tuple[bool, str]:
             torch.randint = orig_randint  # type: ignore[assignment]
         return out, list(gs)
 
-    o1, g1 = run(lambda lv: cap.rewritten(*[lv[str(n.target)] for n in phs]))
-    o2, g2 = run(lambda lv: run_quant_reference(_quant_stage(cap), lv, fkey))
+    def same(a: Optional[torch.Tensor], b: Optional[torch.Tensor]) -> bool:
+        if (a is None) != (b is None):
+            return False
+        return a is None or (a.shape == b.shape and torch.equal(torch.nan_to_num(a, nan=7.25), torch.nan_to_num(b, nan=7.25)))
+
     bad = []
-    if o1.shape != o2.shape or not torch.equal(o1, o2):
-        bad.append("outputs differ")
-    for i, (a, b) in enumerate(zip(g1, g2)):
-        if (a is None) != (b is None) or (a is not None and not torch.equal(a, b)):
-            bad.append(f"gradient #{i} differs")
+    for w in (True, False):  # first with data that saturates / underflows the formats, then the ordinary example inputs (kept for the checks below)
+        wide[0] = w
+        o1, g1 = run(lambda lv: cap.rewritten(*[lv[str(n.target)] for n in phs]))
+        o2, g2 = run(lambda lv: run_quant_reference(_quant_stage(cap), lv, fkey))
+        tagw = " (wide-range data)" if w else ""
+        if not same(o1, o2):
+            bad.append("outputs differ" + tagw)
+        for i, (a, b) in enumerate(zip(g1, g2)):
+            if not same(a, b):
+                bad.append(f"gradient #{i} differs" + tagw)
     if fkey == "lossless":
         o3, g3 = run(lambda lv: cap.original(*[lv[str(n.target)] for n in phs]))
         if not torch.equal(o1, o3) or any((a is None) != (b is None) or (a is not None and not torch.equal(a, b)) for a, b in zip(g1, g3)):
